@@ -448,7 +448,11 @@ func (g *Gen) genTake() *eng.Tx {
 }
 
 func (g *Gen) genBasketFee() *eng.Tx {
-	return tx(&baskettypes.MsgUpdateBasketFee{Authority: g.govSigner(), Fee: g.feeValue()})
+	var cur *sdk.Coin
+	if g.V.BasketFee != nil && g.V.BasketFee.Fee != nil {
+		cur = storedFee(g.V.BasketFee.Fee)
+	}
+	return tx(&baskettypes.MsgUpdateBasketFee{Authority: g.govSigner(), Fee: g.feeValue(cur)})
 }
 
 func (g *Gen) genUpdateCurator() *eng.Tx {
@@ -778,11 +782,27 @@ func (g *Gen) genUpdateSell() *eng.Tx {
 	if g.chance(0.12) {
 		// own order, the same own order again, then SOMEONE ELSE's order (every entry must be checked for
 		// ownership, wherever it stands and whatever precedes it)
-		var foreign *marketapi.SellOrder
+		var foreign, sameBatch *marketapi.SellOrder
 		for _, x := range g.V.OrderList {
 			if obs.Addr(x.Seller) != seller && (foreign == nil || g.chance(0.3)) {
 				foreign = x
 			}
+			if obs.Addr(x.Seller) != seller && x.BatchKey == o.BatchKey && (sameBatch == nil || g.chance(0.3)) {
+				sameBatch = x
+			}
+		}
+		if sameBatch == nil {
+			// look for a pair (own order, someone else's order of the SAME batch) anywhere in the book
+			for _, a := range g.V.OrderList {
+				for _, b := range g.V.OrderList {
+					if sameBatch == nil && a.BatchKey == b.BatchKey && obs.Addr(a.Seller) != obs.Addr(b.Seller) {
+						o, seller, sameBatch = a, obs.Addr(a.Seller), b
+					}
+				}
+			}
+		}
+		if sameBatch != nil && g.chance(0.7) {
+			foreign = sameBatch
 		}
 		if foreign != nil {
 			up := func(x *marketapi.SellOrder) *markettypes.MsgUpdateSellOrders_Update {
@@ -791,10 +811,28 @@ func (g *Gen) genUpdateSell() *eng.Tx {
 					den = mk.BankDenom
 				}
 				c := sdk.NewInt64Coin(den, int64(1+g.R.Intn(1000)))
-				return &markettypes.MsgUpdateSellOrders_Update{SellOrderId: x.Id, NewQuantity: x.Quantity, NewAskPrice: &c, DisableAutoRetire: x.DisableAutoRetire}
+				nq := x.Quantity
+				if q := ref.MustDec(x.Quantity); q != nil && obs.Addr(x.Seller) != seller {
+					// someone else's order: also try to move its owner's credits (escrow -> tradable, tradable -> escrow)
+					switch g.R.Intn(3) {
+					case 0:
+						nq = trimDec(ratToDec(new(big.Rat).Quo(q, big.NewRat(2, 1)), 6))
+					case 1:
+						if t, _, _ := g.V.BalOf(obs.Addr(x.Seller), x.BatchKey); t != nil && t.Sign() > 0 {
+							nq = trimDec(ratToDec(new(big.Rat).Add(q, new(big.Rat).Quo(t, big.NewRat(2, 1))), 6))
+						}
+					}
+					if ref.MustDec(nq) == nil || ref.MustDec(nq).Sign() <= 0 {
+						nq = x.Quantity
+					}
+				}
+				return &markettypes.MsgUpdateSellOrders_Update{SellOrderId: x.Id, NewQuantity: nq, NewAskPrice: &c, DisableAutoRetire: x.DisableAutoRetire}
 			}
 			m.Seller = seller
 			m.Updates = []*markettypes.MsgUpdateSellOrders_Update{up(o), up(o), up(foreign)}
+			if g.chance(0.5) {
+				m.Updates = []*markettypes.MsgUpdateSellOrders_Update{up(o), up(foreign)}
+			}
 			if g.chance(0.3) {
 				m.Updates = append(m.Updates, up(foreign))
 			}
